@@ -419,6 +419,37 @@ void h_early_erxoverflow(void)
 
 #endif
 
+#if defined(REGP_USE_WIRE_H) && defined(RPP_UNIT_REGP)
+/* The structure of a parsed frame that the receiver's proof assumes
+ * (RPP_PF_STRUCT) follows from the reference-decoder contract of parse_frame
+ * (contracts/regp-wire.h, enforced in C07): parse_frame is replaced by THAT
+ * contract here.  Block of fixed size with symbolic fill, as in C07's own
+ * target (a symbolic-size block makes the trace axiom intractable). */
+void h_lemma_parse_frame_structure(void)
+{
+  IN(size_t, in_n)
+  ASSUME(in_n <= REGP_PF_MAX);
+  IN_MEM(in_block, sizeof(RPFrame) + REGP_PF_MAX)
+  uint16_t *T = malloc((REGP_PF_MAX + 1u) * sizeof(uint16_t));
+  ASSUME(T != NULL);
+  g_crcT = T;
+  ByteBuffer fb = { in_block, sizeof(RPFrame) + REGP_PF_MAX, sizeof(RPFrame) + in_n, 0 };
+  ASSUME(IMPLIES(in_n >= 12u, in_n <= RPW_PF_HLEN(&fb) + CRC_NMAX));
+#if VERIF_IS_NATIVE
+  if (in_n >= 12u && in_n > RPW_PF_HLEN(&fb)) {
+    const unsigned char *pl_ = RPW_PF_RAW(&fb) + RPW_PF_HLEN(&fb);
+    T[0] = 0;
+    for (size_t i_ = 0; i_ < in_n - RPW_PF_HLEN(&fb); i_++) T[i_ + 1] = spec_crc16_step(T[i_], pl_[i_]);
+  }
+#else
+  ASSUME(IMPLIES(in_n >= 12u, REGP_PF_TRACE_OK(&fb)));
+#endif
+  int rc = parse_frame(&fb);
+  CHECK(RPP_PF_STRUCT(&fb, rc), "the reference-decoder contract of parse_frame implies the structure the receiver relies on");
+  VERIF_CANARY();
+}
+#endif
+
 #if defined(RPP_UNIT_REGP) && defined(RPP_UNIT_SINK)
 /* ------------------------------------------------------------------------ */
 /* C09: the receiver                                                          */
